@@ -449,7 +449,7 @@ WORD_RE = re.compile(r"[A-Za-z0-9_]+|[^A-Za-z0-9_\s]+")
 TOK_BYTES = {
     "left": ["\x1b[D", "\x02"], "right": ["\x1b[C", "\x06"], "home": ["\x01", "\x1b[H"], "end": ["\x05", "\x1b[F"],
     "bs": ["\x7f"], "del": ["\x1b[3~"], "ctrl-d": ["\x04"], "bword": ["\x1bb"], "fword": ["\x1bf"],
-    "kill": ["\x0b"], "discard": ["\x15"], "f1": ["\x1bOP"], "enter": ["\r"], "esc-enter": ["\x1b\r"], "ctrl-c": ["\x03"],
+    "kill": ["\x0b"], "discard": ["\x15"], "f1": ["\x1bOP"], "enter": ["\r"], "lf": ["\n"], "esc-enter": ["\x1b\r"], "ctrl-c": ["\x03"],
 }
 # tokens whose byte string is two key presses of one binding (a report may arrive between them)
 TWO_KEY = ("bword", "fword", "esc-enter", "escq", "cxq", "quoted")
@@ -521,7 +521,7 @@ def expected_results(tokens, closed=True):
             text, cur = text[cur:], 0
         elif k in ("f1", "cpr", "esc-flush"):
             pass
-        elif k in ("enter", "esc-enter"):
+        elif k in ("enter", "esc-enter", "lf"):
             res.append([0, S(text)])
             text, cur = "", 0
         elif k == "ctrl-c":
@@ -553,8 +553,12 @@ def oracle(sc, o):
     from prompt_toolkit.input import typeahead
     kp = rec.kproc
     left = list(kp.key_buffer) + list(typeahead._buffer[rec.inp.typeahead_hash()]) + list(kp.input_queue)
-    if nc(rec.handled) + nc(left) != nc(rec.decoded):
-        a, b = nc(rec.handled) + nc(left), nc(rec.decoded)
+    # key presses a handler fed into the processor (C-j feeds a ControlM) were never typed: only the
+    # objects the input produced count
+    ids = set(id(k) for k in rec.decoded)
+    real = lambda l: [k for k in l if id(k) in ids]  # noqa
+    if nc(real(rec.handled)) + nc(real(left)) != nc(rec.decoded):
+        a, b = nc(real(rec.handled)) + nc(real(left)), nc(rec.decoded)
         i = next((j for j in range(min(len(a), len(b))) if a[j] != b[j]), min(len(a), len(b)))
         fam = "lost" if len(a) < len(b) else ("duplicated" if len(a) > len(b) else "reordered")
         bad.append(("keys that reached handlers ++ key buffer ++ type-ahead ++ queue differ from the decoded keys at index %d" % i,
@@ -621,7 +625,7 @@ def rand_line(rng, allow_flush=False):
             toks.append(("quoted", rng.choice("ab\x01\x1b\r")))
         else:
             toks.append(("paste", "".join(rng.choice("pq r\x1b") for _ in range(rng.randint(0, 4)))))
-    toks.append((rng.choice(["enter", "enter", "enter", "enter", "esc-enter", "ctrl-c"]), 0))
+    toks.append((rng.choice(["enter", "enter", "lf", "lf", "esc-enter", "ctrl-c"]), 0))
     return toks
 
 
@@ -733,6 +737,9 @@ HAND = [
     [("c", "a"), ("c", "b"), ("ctrl-c", 0), ("c", "c"), ("c", "d"), ("enter", 0), ("ctrl-d", 0), ("c", "x"), ("enter", 0)],
     [("c", "a"), ("esc-enter", 0), ("split", ("esc-enter", 0), ("cpr", 1, 1)), ("c", "b"), ("enter", 0)],
     [("paste", "p q"), ("left", 0), ("left", 1), ("bs", 0), ("enter", 0), ("paste", ""), ("c", "k"), ("enter", 0)],
+    # line feed accepts like carriage return (C-j feeds a ControlM to the FRONT of the queue)
+    [("c", "o"), ("c", "n"), ("c", "e"), ("lf", 0), ("c", "t"), ("c", "w"), ("c", "o"), ("lf", 0), ("c", "t"), ("lf", 0)],
+    [("c", "a"), ("lf", 0), ("c", "b"), ("bword", 0), ("c", "X"), ("enter", 0), ("cpr", 2, 2), ("c", "c"), ("lf", 0), ("lf", 0), ("c", "d"), ("esc-enter", 0)],
 ]
 
 
